@@ -2,7 +2,8 @@
    addresses, any number of concurrent Dial calls (threads), as a labelled transition system.
 
      dial     = Start t timeout          deadline := time.Now().Add(timeout)
-              ; Draw t                   getTCPAddrs: idx := atomic.AddUint32(&e.addrsIdx, 1)   (uint32: wraps)
+              ; (ResolveFail t | ResolveDeadline t |                      the Resolver fails / hangs until the deadline
+                 Draw t)                  getTCPAddrs: idx := atomic.AddUint32(&e.addrsIdx, 1)   (uint32: wraps)
               ; for i := range n { tryDial(addrs[(idx%n+i)%n]) }          (uint32 arithmetic)
      tryDial  = Check t                  time.Until(deadline) <= 0  -> ErrDialTimeout(addr)
               ; (AcqFast t | AcqFull t ; (AcqSlow t | SemTimeout t))      the concurrencyCh semaphore racing a timer
@@ -26,7 +27,8 @@ Record dcfg := mkCfg { cap : N; nad : N }.
 Inductive xres :=
 | XOk (a : N)          (* connected to address number a *)
 | XTimeout (a : N)     (* ErrDialTimeout wrapped with upstream a *)
-| XErr (a : N).        (* the last address failed with another error (wrapped with upstream a) *)
+| XErr (a : N)         (* the last address failed with another error (wrapped with upstream a) *)
+| XResolveErr.         (* getTCPAddrs failed: the Resolver's error (or its context error at the deadline), not wrapped *)
 
 Inductive tpc :=
 | TNew
@@ -48,7 +50,7 @@ Record dstate := mkDS {
 Definition dsinit : dstate := mkDS 0 0 0 (fun _ => TNew) [].
 
 Inductive dlabel :=
-| LStart (t to : N) | LDraw (t : N) | LCheck (t : N)
+| LStart (t to : N) | LDraw (t : N) | LResolveFail (t : N) | LResolveDeadline (t : N) | LCheck (t : N)
 | LAcqFast (t : N) | LAcqFull (t : N) | LAcqSlow (t : N) | LSemTimeout (t : N)
 | LConnOk (t : N) | LConnRefused (t : N) | LConnDeadline (t : N)
 | LTick (d : N).
@@ -79,6 +81,14 @@ Definition dstep (c : dcfg) (s : dstate) (l : dlabel) : option dstate :=
                | TDraw dl => let i := (aidx s + 1) mod W32 in
                              Some (mkDS (sem s) i (clock s) (upd (tp s) t (TLoop dl i 0 [])) (inprog s))
                | _ => None end
+  (* resolveTCPAddrs: the Resolver returns an error at once / only when its context (deadline = the dial's) expires.
+     No cache entry is created and the rotation counter is untouched. *)
+  | LResolveFail t => match tp s t with
+                      | TDraw dl => Some (set_tp s t (TDone XResolveErr dl 0 [] (clock s)))
+                      | _ => None end
+  | LResolveDeadline t => match tp s t with
+                          | TDraw dl => if dl <=? clock s then Some (set_tp s t (TDone XResolveErr dl 0 [] (clock s))) else None
+                          | _ => None end
   | LCheck t => match tp s t with
                 | TLoop dl i0 k tr =>
                     if dl <=? clock s then Some (set_tp s t (TDone (XTimeout (addr_of c i0 k)) dl i0 tr (clock s)))
@@ -132,10 +142,11 @@ Definition rot (c : dcfg) (i0 k : N) : list N := map (fun j => addr_of c i0 (N.o
    the socket timer beat the context timer — both are ErrDialTimeout, step ConnDeadline).  Threads take their enabled steps in list order; when every thread is
    waiting (for the semaphore or for a hanging connect) time jumps to the earliest deadline. *)
 Inductive outcome := OAccept | ORefuse | OHang.
+Inductive rmode := RGood | RFail | RHangs.   (* what the Resolver does when it is consulted (no cache entry) *)
 
-Definition step_thread (c : dcfg) (s : dstate) (oracle : N -> outcome) (t : N) : option dstate :=
+Definition step_thread (c : dcfg) (s : dstate) (oracle : N -> outcome) (rm : rmode) (t : N) : option dstate :=
   match tp s t with
-  | TDraw _ => dstep c s (LDraw t)
+  | TDraw _ => match rm with RGood => dstep c s (LDraw t) | RFail => dstep c s (LResolveFail t) | RHangs => dstep c s (LResolveDeadline t) end
   | TLoop _ _ _ _ => dstep c s (LCheck t)
   | TSem _ _ _ _ => match dstep c s (LAcqFast t) with Some s1 => Some s1 | None => dstep c s (LAcqFull t) end
   | TSemWait _ _ _ _ => match dstep c s (LAcqSlow t) with Some s1 => Some s1 | None => dstep c s (LSemTimeout t) end
@@ -147,13 +158,13 @@ Definition step_thread (c : dcfg) (s : dstate) (oracle : N -> outcome) (t : N) :
       end
   | _ => None
   end.
-Fixpoint first_step (c : dcfg) (s : dstate) (oracle : N -> outcome) (ts : list N) : option dstate :=
+Fixpoint first_step (c : dcfg) (s : dstate) (oracle : N -> outcome) (rm : rmode) (ts : list N) : option dstate :=
   match ts with
   | [] => None
-  | t :: r => match step_thread c s oracle t with Some s1 => Some s1 | None => first_step c s oracle r end
+  | t :: r => match step_thread c s oracle rm t with Some s1 => Some s1 | None => first_step c s oracle rm r end
   end.
 Definition waiting_dl (s : dstate) (t : N) : option N :=
-  match tp s t with TSemWait dl _ _ _ | TConn _ dl _ _ _ => Some dl | _ => None end.
+  match tp s t with TDraw dl | TSemWait dl _ _ _ | TConn _ dl _ _ _ => Some dl | _ => None end.
 Fixpoint min_dl (s : dstate) (ts : list N) : option N :=
   match ts with
   | [] => None
@@ -163,32 +174,32 @@ Fixpoint min_dl (s : dstate) (ts : list N) : option N :=
               | None, m => m
               end
   end.
-Fixpoint sim (c : dcfg) (fuel : nat) (s : dstate) (oracle : N -> outcome) (ts : list N) : dstate :=
+Fixpoint sim (c : dcfg) (fuel : nat) (s : dstate) (oracle : N -> outcome) (rm : rmode) (ts : list N) : dstate :=
   match fuel with
   | O => s
   | S f =>
-      match first_step c s oracle ts with
-      | Some s1 => sim c f s1 oracle ts
+      match first_step c s oracle rm ts with
+      | Some s1 => sim c f s1 oracle rm ts
       | None =>
           match min_dl s ts with
           | Some d => if clock s <? d
-                      then match dstep c s (LTick (d - clock s)) with Some s1 => sim c f s1 oracle ts | None => s end
+                      then match dstep c s (LTick (d - clock s)) with Some s1 => sim c f s1 oracle rm ts | None => s end
                       else s
           | None => s
           end
       end
   end.
 (* same, but never lets time pass beyond `until` (the next Dial call of the scenario starts then) *)
-Fixpoint sim_until (c : dcfg) (fuel : nat) (s : dstate) (oracle : N -> outcome) (ts : list N) (until : N) : dstate :=
+Fixpoint sim_until (c : dcfg) (fuel : nat) (s : dstate) (oracle : N -> outcome) (rm : rmode) (ts : list N) (until : N) : dstate :=
   match fuel with
   | O => s
   | S f =>
-      match first_step c s oracle ts with
-      | Some s1 => sim_until c f s1 oracle ts until
+      match first_step c s oracle rm ts with
+      | Some s1 => sim_until c f s1 oracle rm ts until
       | None =>
           match min_dl s ts with
           | Some d => if (clock s <? d) && (d <=? until)
-                      then match dstep c s (LTick (d - clock s)) with Some s1 => sim_until c f s1 oracle ts until | None => s end
+                      then match dstep c s (LTick (d - clock s)) with Some s1 => sim_until c f s1 oracle rm ts until | None => s end
                       else s
           | None => s
           end
